@@ -43,3 +43,42 @@ package utils
 //@   loop 3 invariant rng:  0 <= $idx(3) && $idx(3) <= len(clusters)
 //@   loop 3 invariant ptrs: forall k int :: 0 <= k && k < len(clusters) ==> clusters[k] == old(clusters[k]) && clusters[k].Length == old(clusters[k].Length)
 //@ end
+
+// ---------------------------------------------------------------------------
+// C03 — which endpoints become servers, and which of them are ready
+
+// an endpoints port serves a service port iff it is TCP and unnamed service
+// ports match anything, named ones match by name
+//@ func matchPort
+//@   props C03
+//@   modifies nothing
+//@   ensures iff: result == (epPort.Protocol == api.ProtocolTCP && (svcPort.Name == "" || svcPort.Name == epPort.Name))
+//@ end
+
+//@ count MatchPort = matchPort
+
+// ready addresses come from subset.Addresses of a matching port and only they
+// go to `ready`; not-ready addresses only go to `notReady`
+//@ func createEndpoints
+//@   props C03
+//@   loop 3 writes ready
+//@   loop 4 writes notReady
+//@   at call newEndpoint#1 assert ready-src:    last(MatchPort) && addr.IP == subset.Addresses[$idx(3)-1].IP && $arg1 == port
+//@   at call newEndpoint#2 assert notready-src: last(MatchPort) && addr.IP == subset.NotReadyAddresses[$idx(4)-1].IP && $arg1 == port
+//@   at call matchPort#1 assert ports: $arg0 == svcPort
+//@ end
+
+// endpoint slices: protocol and (if named) port name must match; an endpoint
+// is ready iff its Ready condition is unset or true
+//@ func createEndpointSlices
+//@   props C03
+//@   at call newEndpoint#1 assert matching: ((svcPort.Protocol == "") ? api.ProtocolTCP : svcPort.Protocol) == *epPort.Protocol && (svcPort.Name == "" || svcPort.Name == *epPort.Name)
+//@ end
+
+// the service port is found by name, by target port or by number: the result
+// is one of the service's ports that matches
+//@ func FindServicePort
+//@   props C03
+//@   modifies nothing
+//@   ensures fresh-copy: result != nil ==> fresh(result)
+//@ end
